@@ -228,7 +228,17 @@ def apply_plan(full, info, plan, conc):
         elif ty == 'L':
             if pres(pos[0]) and all(removable(p) or not pres(p) for p in pos[1:]):
                 todo = [p for p in pos[1:] if pres(p)]
-        if ty == 'E' or not todo:
+        elif ty == 'E':
+            # exclusion: one of the positions is present - a second one is filled in (simple, usable element)
+            have = [p for p in pos if pres(p)]
+            cand = [p for p in pos if not pres(p) and p <= len(eles) and eles[p - 1]['usage'] != 'N' and eles[p - 1]['k'] == 'e']
+            if len(have) == 1 and cand and not plan.get('tail'):
+                p = cand[(si + ci) % len(cand)]
+                pad(vals, p)
+                vals[p - 1] = conc.val_for(eles[p - 1])
+                value = vals[p - 1]
+                todo = []
+        if todo is None or (ty != 'E' and not todo):
             return None
         for p in todo:
             vals[p - 1] = ''
@@ -251,6 +261,14 @@ def apply_plan(full, info, plan, conc):
         info.insert(si + 1, (0, 'ZZZ', ['X1']))
         at = si + 1
         sid = 'ZZZ'
+    elif kind == 'OutOfPlaceSeg':
+        # a copy of an earlier segment of the same set whose identifier cannot occur from here on (Fault!ForwardIds); the plan's
+        # sub field carries the index of the copied segment, it is not a component position
+        src = info[ci - 1]
+        info.insert(si + 1, (0, src[1], [list(x) if isinstance(x, list) else x for x in src[2]]))
+        at = si + 1
+        sid = src[1]
+        ci = 0
     elif kind == 'MissingRequiredSeg':
         # only where the segment occurs once: with a repeated one, removing one occurrence leaves a conformant document
         if (si > 0 and info[si - 1][0] == nid) or (si + 1 < len(info) and info[si + 1][0] == nid):
@@ -306,7 +324,7 @@ def apply_plan(full, info, plan, conc):
         at = k + (extra - 1) * len(inst)
     else:
         return None
-    if kind not in ('UnknownSeg', 'MissingRequiredSeg', 'SegOverMax', 'LoopOverMax'):
+    if kind not in ('UnknownSeg', 'OutOfPlaceSeg', 'MissingRequiredSeg', 'SegOverMax', 'LoopOverMax'):
         info[si] = (nid, sid, vals)
     # keep the envelope consistent: recount SE01
     cnt = 0
@@ -322,7 +340,7 @@ def apply_plan(full, info, plan, conc):
     last_se = max([k for k, x in enumerate(info[:at]) if x[1] == 'SE'] or [-1])
     if last_st < 0 or last_se > last_st:
         faultset = 0          # the fault is outside any transaction set (TA1 after GE ...): no set carries it
-    return info, {'seg': n['id'] if kind != 'UnknownSeg' else 'ZZZ', 'at': at, 'ele': ei, 'sub': ci, 'value': value}, alt, faultset
+    return info, {'seg': n['id'] if kind not in ('UnknownSeg', 'OutOfPlaceSeg') else sid, 'at': at, 'ele': ei, 'sub': ci, 'value': value}, alt, faultset
 
 
 def _run_batch(args):
@@ -483,7 +501,7 @@ def run(tier, replay=None):
     chk.extra['not_clean_base_documents'] = sum(1 for r in recs if not r['clean'])
     chk.extra['maps'] = files
     chk.assumptions = ['fault values are constructed so that they break exactly one constraint (plans that would also flip a syntax note are dropped)',
-                       'kinds NotUsedSeg and OutOfPlaceSeg of the catalogue are not generated yet; E-type syntax notes are not broken (needs two admissible values)',
+                       'OutOfPlaceSeg: a copy of an earlier segment whose identifier occurs nowhere forward of the insertion point in the map (Fault!ForwardIds, by identifier only - a sufficient condition); kind NotUsedSeg is not generated: no shipped map declares a not-used segment (only empty not-used wrapper loops)',
                        'a fault on an element the qualifier tests look at, and every segment-level fault, is treated as structural: only rejection and localisation are required']
     return chk.finish()
 
